@@ -652,7 +652,10 @@ def _classes(entries: list[dict], with_cluster: bool, with_oid: bool) -> list[in
 
 
 def clause_for_mode(S: dict, R: dict, mode: tuple) -> tuple[str, str]:
-    items = picture(S, mode)
+    return clause_for_items(picture(S, mode), R)
+
+
+def clause_for_items(items: list[dict], R: dict) -> tuple[str, str]:
     rn = R["nodes"]
     for k, nd in enumerate(rn, start=1):
         if any(e["to"] >= k for e in nd["kids"]):
@@ -763,3 +766,14 @@ def judge(rec: dict) -> tuple[str, str]:
             first = v
     assert first is not None
     return first
+
+
+def judge_fancy(rec: dict) -> tuple[str, str]:
+    from . import vizrepr
+    R = rec["dot"]
+    if R["error"]:
+        return R["error"], R["what"]
+    R = dict(R, nodes=[dict(nd, kids=[{"to": t, "lab": "", "style": ""}
+                                      for t in sorted({e["to"] for e in nd["kids"]})])
+                       for nd in R["nodes"]])
+    return clause_for_items(vizrepr.fancy_picture(rec["src"]), R)
